@@ -102,17 +102,17 @@ type Exchange struct {
 
 	TCall, TReturn time.Time
 
-	Status   int
-	Proto    string
-	Header   http.Header // snapshot at return
-	HeaderQ  http.Header // snapshot after quiescence (nil if NoWait)
-	Body     []byte
-	BodyErr  string
-	Err      error
-	Panic    string
-	NilNil   bool
-	Resp     *http.Response // the live object (for Mode R callers)
-	Trailer  http.Header
+	Status  int
+	Proto   string
+	Header  http.Header // snapshot at return
+	HeaderQ http.Header // snapshot after quiescence (nil if NoWait)
+	Body    []byte
+	BodyErr string
+	Err     error
+	Panic   string
+	NilNil  bool
+	Resp    *http.Response // the live object (for Mode R callers)
+	Trailer http.Header
 
 	StoreOps []StoreOp // operations between call and quiescence
 	OpsFrom  int
@@ -273,13 +273,13 @@ type World struct {
 
 // WorldOpt configures NewWorld.
 type WorldOpt struct {
-	Inner      driver.Conn // default: fresh memcache
-	Handler    Handler
-	SWRTimeout *time.Duration
+	Inner       driver.Conn // default: fresh memcache
+	Handler     Handler
+	SWRTimeout  *time.Duration
 	SWRTimeouts []time.Duration // WithSWRTimeout applied several times, in this order
-	Logger     *slog.Logger
-	Silent     bool
-	NoBubble   bool
+	Logger      *slog.Logger
+	Silent      bool
+	NoBubble    bool
 }
 
 func NewWorld(o WorldOpt) *World {
